@@ -176,6 +176,18 @@ CLAIMED = {
              "library inputs and -z ibt/shstk are outside the generated inputs; GNU ld 2.40 aborts on -z x86-64-baseline, so that flag is not generated.",
         technique="Coq proof (fold over the flattened property list = per-file fold, by induction with NoDup) + model/implementation and spec/GNU-ld correspondence on generated links",
         design_ref="DESIGN.md §3 C36"),
+    "C07": dict(
+        text="S1, sequential semantics of string merging: Gallina models of process_input_section (range-restricted NUL splitting with the part-way-through-a-string skip), "
+             "MergeStringsSectionBucket::add_string (de-duplication, offsets) and find_string / get_merged_string_output_address (exact offset, else backwards search plus distance). Theorems: "
+             "however the input is cut into work groups, every string start is processed by exactly one group; the index remaining[offset-1] is in bounds; the offset a bucket hands out points "
+             "at a copy of the string and earlier offsets stay valid; a reference to ANY offset of a section resolves to output bytes equal to the input bytes up to and including the NUL. "
+             "The parallel hand-off is C40.",
+        note="Trusted: addresses = bucket base + offset from layout; the tie links generated programs with 256-byte work groups (strings starting exactly on / next to group boundaries, duplicates, "
+             "suffixes, empty strings, named and section-symbol references into the middle of strings) at 1/4/16 threads: the self-checking program compares every referenced string with an "
+             "unmerged copy, the merged output section must hold each distinct string exactly once, behaviour must equal --no-string-merge, and the model's process_all over the same cuts must "
+             "produce exactly the strings checked.",
+        technique="Coq proof (induction over the splitting loop with a string-start invariant; list lemmas for de-duplication and lookup) + link-and-run correspondence with tiny work groups",
+        design_ref="DESIGN.md §3 C07"),
     "C37": dict(
         text="S1 on top of C03: DT_NEEDED = the shared libraries in the verified loaded set, in command-line order. Theorems: listed iff loaded shared library; every --no-as-needed library listed; "
              "an --as-needed library listed only if some loaded file non-weakly references a name whose first definition it is; strictly increasing command-line positions (each at most once).",
